@@ -57,8 +57,10 @@ func Validate(rec *Record, pk ic.PubKey) error {
 		return ErrSignature
 	}
 
-	// (5) Ensure that CBOR data matches Protobuf, only if non-CBOR Value or SignatureV1 are present.
-	if len(rec.pb.GetSignatureV1()) != 0 || len(rec.pb.GetValue()) != 0 {
+	// (5) Ensure that CBOR data matches Protobuf whenever SignatureV1 or any of the
+	// legacy (unsigned) fields is present.
+	if pb := rec.pb; len(pb.GetSignatureV1()) != 0 || pb.Value != nil || pb.Validity != nil ||
+		pb.ValidityType != nil || pb.Sequence != nil || pb.Ttl != nil {
 		if err := validateCborDataMatchesPbData(rec.pb); err != nil {
 			return err
 		}
